@@ -131,4 +131,18 @@ def obligations(prog, src, tier, seed):
                 "doc": "total: Ok((host without brackets, explicit port | 80 for http | 443 for https)) or Err, never panics", "run": run_hp, "check": check_hp,
                 "cex_extract": lambda p, m: dict({"family": "tcp_transport"}, **uri_scenario(m, p.ctx.u)),
                 "judge": lambda scn, out: out.get("result", "").startswith("panic")})
+
+    # ---- the TLS wrapper and stream constructor (two cooperating sites: the pre-check in
+    #      TlsTransportWrapper::call and the `expect` in TlsStream::new); shared with C12 --------------
+    import ob_C12
+    for ob in ob_C12.obligations(prog, src, tier, seed):
+        if ob["name"] == "c12_tls_server_name_for_every_host":
+            base_check = ob["check"]
+
+            def panics_only(p, base_check=base_check):
+                if p.outcome == "panic":
+                    return base_check(p)
+                return [("witness:reach", z3.BoolVal(True))]
+            obs.append(dict(ob, name="c17_tls_stream_for_every_host", check=panics_only,
+                            doc="for every syntactically valid URI host (and any caller-supplied Host header) the TLS connect path builds its stream without panicking"))
     return obs
